@@ -226,8 +226,8 @@ Fixpoint live_sum (cur : nat -> cursor) (n : nat) (p : N) : Z :=
 (* the factory's books: what is acquired is what the open cursors hold *)
 Definition IQ (acq : N -> Z) (cur : nat -> cursor) (ncur : nat) : Prop := forall p, acq p = live_sum cur ncur p.
 Ltac sproj :=
-  unfold set_actor, set_act, touch, clear_cur, set_val, set_rs, set_vals, set_cursor, set_cur, set_curs, set_acq, set_now, set_max;
-  cbn [p_rs p_vals p_curs p_max p_idle p_busyto p_now p_cur p_ncur p_acq p_act].
+  cbn [set_actor set_act touch clear_cur set_val set_rs set_vals set_cursor set_cur set_curs set_acq set_now set_max
+       p_rs p_vals p_curs p_max p_idle p_busyto p_now p_cur p_ncur p_acq p_act].
 
 
 (* Everything below is proved twice at once: `mono = false` for arbitrary clock steps, `mono = true` for a
@@ -1353,6 +1353,14 @@ Proof.
   split; [exact H|]. split; [|symmetry; exact Hk].
   destruct (A3 r c H) as [(e0 & I0 & Hc0 & Hb0)|Hn]; [|exfalso; exact (Hn e Ie Hc)].
   rewrite <- (IM_inj _ _ _ _ _ _ _ _ M I0 Ie Hc0 Hc). exact Hb0.
+Qed.
+
+(* a cache entry marked busy is in the hands of a request; so when no request is in flight nothing in the cache is busy *)
+Lemma inv_busy_held s : Inv s -> forall k e, map_get (p_curs s) k = Some e -> h_busy (p_vals s e) = true ->
+  exists r c, act_get (p_act s) r = AHold c /\ h_cur (p_vals s e) = Some c.
+Proof.
+  intros (lb & lf & _ & (M1 & _) & (_ & _ & _ & _ & A7) & _) k e Hm Hb.
+  destruct (M1 k e Hm) as (Ie & c & Hc & _). destruct (A7 e c Ie Hb Hc) as [r H]. exists r, c. auto.
 Qed.
 
 Lemma inv_acq s : Inv s -> forall p, p_acq s p = live_sum (p_cur s) (p_ncur s) p.
